@@ -195,8 +195,15 @@ class Agent(dbus.service.Object):
             self.stop()
             return True
 
-        for hdl in self._handlers:
-            hdl.terminate()
+        for hdl in tuple(self._handlers):
+            try:
+                hdl.terminate()
+            except RuntimeError:
+                # no session to terminate yet, just disconnect
+                hdl.close()
+        if not self._handlers:
+            # closing the last one has stopped the agent
+            return True
         self._logger.info('Waiting on sessions to terminate')
         return False
 
